@@ -969,6 +969,27 @@ def _folder_path_cases():
                     ["/Docs/"], ["Docs/My Reports 50%/", "/Other"]):
         full = {"ca": None, "cb": None, "ma": None, "mb": None, "pats": [], "exts": [], "offs": 0, "folders": folders}
         out.append({"lib": lib, "page": 1, "link": 0, "calls": [{"kind": "filtered", "filter": full}]})
+    # start folders that are string prefixes of one another without being ancestors, in every order; sets of
+    # mutually unrelated folders at different depths (every listed folder must be searched, exactly once)
+    lib2 = [f("top.txt"),
+            {"k": "folder", "name": "Rep", "id": "G0", "children": [f("p0.txt")]},
+            {"k": "folder", "name": "Reports", "id": "G1", "children": [
+                f("a1.pdf"), {"k": "folder", "name": "Q1", "id": "G2", "children": [f("q1.docx")]},
+                {"k": "folder", "name": "Q10", "id": "G3", "children": [f("q10.docx")]}]},
+            {"k": "folder", "name": "Reports-old", "id": "G4", "children": [f("b1.pdf"), {"k": "folder", "name": "Q1", "id": "G5", "children": [f("oq1.txt")]}]},
+            {"k": "folder", "name": "Reports 2", "id": "G6", "children": [f("c1.pdf")]},
+            {"k": "folder", "name": "reports", "id": "G7", "children": [f("lower.pdf")]}]
+    names = ["Rep", "Reports", "Reports-old", "Reports 2", "reports", "Reports/Q1", "Reports/Q10", "Reports-old/Q1"]
+
+    def related(a, b):
+        return a == b or a.startswith(b + "/") or b.startswith(a + "/")
+    import itertools
+    sets = [list(c) for r in (2, 3) for c in itertools.combinations(names, r)
+            if not any(related(a, b) for a, b in itertools.combinations(c, 2))]
+    for c in sets:
+        for folders in (c, c[::-1]):
+            full = {"ca": None, "cb": None, "ma": None, "mb": None, "pats": [], "exts": [], "offs": 0, "folders": folders}
+            out.append({"lib": lib2, "page": 2, "link": 0, "calls": [{"kind": "filtered", "filter": full}]})
     return out
 
 
@@ -992,6 +1013,14 @@ def known_witnesses(ctx):
         else:
             ctx.notes.append(f"known finding {key}: the committed witness no longer fails — remove it from known_findings.jsonl")
     # healthy folder_paths cases must hold (oracle only; not modelled in Lean)
-    for case in _folder_path_cases():
-        out += oracle_case(case)
+    cases = _folder_path_cases()
+    if not ctx.thorough and len(cases) > 40:      # the 7 fixed cases + a seed-dependent sample of the generated sets
+        cases = cases[:7] + ctx.rng.sample(cases[7:], 33)
+    for case in cases:
+        ctx.case(("folder_paths", tuple(case["calls"][0]["filter"]["folders"])))
+        ctx.count("folder_paths/" + str(len(case["calls"][0]["filter"]["folders"])))
+        vs = oracle_case(case)
+        out += vs
+        if vs:
+            break
     return out
